@@ -527,7 +527,7 @@ def _safe_expr(n) -> bool:
 
 def scan_sites(root: str | None = None) -> list[dict]:
     """All `%` / `.format` / f-string substitutions into XML-looking templates under src/pptx."""
-    root = root or os.path.join(os.environ.get("VERIF_REPO", "/repo"), "src", "pptx")
+    root = root or os.path.join((os.environ.get("VERIF_REPO") or "/repo"), "src", "pptx")
     sites = []
     for dp, _, fns in sorted(os.walk(root)):
         for fn in sorted(fns):
